@@ -20,6 +20,8 @@
 import PdshVerif.Mod.Determinism
 import PdshVerif.Mod.TieLemmas
 import PdshVerif.Mod.Spec
+import PdshVerif.Mod.SpecSound
+import PdshVerif.Mod.SplitLemmas
 
 namespace PdshVerif.C17
 open PdshVerif.Mod
@@ -418,6 +420,38 @@ theorem forced_first (pers : Nat) (misc : Str) (l : List Mod) (nm : Str) (rest :
     exact hopts _ _ (hoptsN _ _ _ (by simp))
   rw [hall, ht]
   simp [List.append_assoc]
+
+/-! ## all clauses at once -/
+
+/-- The model of the code as it is now (`Tie.loadAllPF`: personality tested first, ties broken by
+    type / file name) satisfies EVERY clause of the specification Mod/Spec.lean simultaneously --
+    directory choice, secure path, secure files, only loadable modules listed, duplicates resolved by
+    priority, priority-then-name order, forced-first greedy activation with all-or-nothing option
+    registration, initialisers run exactly for the activated modules, option characters handled only
+    by active owners -- for every environment, every directory whose entry names are distinct (they
+    are directory entries), every -M list without brackets and every set of option characters tried:
+    what an observer sees of the model (`obsOf`) passes `Spec.check`. -/
+theorem spec_sound (e : Env) (letters : List Char)
+    (hn : ((chooseDir e).files.map (·.fname)).Nodup)
+    (hmisc : ∀ s, e.misc = some s → NoBrackets s) :
+    Spec.check e (obsOf (Tie.loadAllPF e) letters) = [] :=
+  check_obsOf_nil e letters hn (fun s hs => splitNames_eq_splitComma s (hmisc s hs))
+
+/-- the hypotheses of `spec_sound` are satisfiable by a directory with a conflict, a duplicate, a
+    module of the other personality and a forced module -/
+example :
+    let fs := [wMod "a.so" "misc" "alpha" 100 3 'a', wMod "b.so" "misc" "alpha" 150 3 'a',
+               wMod "c.so" "misc" "beta" 100 3 'a', wMod "d.so" "rcmd" "t1" 100 2 'W']
+    let e : Env := { wEnv fs with misc := some "beta".toList }
+    ((chooseDir e).files.map (·.fname)).Nodup ∧ (∀ s, e.misc = some s → NoBrackets s) ∧
+    wView (Tie.loadAllPF e) = [("b.so", false), ("c.so", true)] := by
+  refine ⟨by decide, ?_, by decide⟩
+  intro s hs
+  simp only [Option.some.injEq] at hs
+  subst hs
+  intro c hc
+  revert c
+  decide
 
 /-! the hypotheses are satisfiable: a directory with a duplicate (higher priority wins), a conflict
     and an unrelated module is `Distinct`, and loading it in two orders gives the same module list -/
